@@ -525,37 +525,50 @@ def fire (l : Label) (s : St) : Option St := if guard l s then some (eff l s) el
 /-- one atomic step of some thread -/
 def Step (s t : St) : Prop := ∃ l, fire l s = some t
 
-/-- number of threads at the points of a list -/
-def sumL (f : Pc → Nat) : List Pc → Nat
-  | [] => 0
-  | p :: ps => f p + sumL f ps
-
-/-- number of threads at the points of a list, in a state -/
-abbrev St.num (s : St) (L : List Pc) : Nat := sumL s.cnt L
-
-/-! Sets of program points the theorems and the invariant speak about. -/
-/-- inside the unguarded initialiser (test failed, `FFT_LEN = 0` not yet stored) -/
-def inInitS : List Pc := [.i1, .i2, .i3, .i4, .i5, .i6]
-/-- holding the writer role: from P(w) in `become_writer` until V(w) in `cease_writing` -/
-def writersS : List Pc := [.c1, .b0, .wt, .y1, .d1]
-/-- holding the reader role: counted in `readcount` while the reader group holds `w` -/
-def readersS : List Pc := [.r6, .r7, .r8, .c0, .rd, .x1, .x2, .u1, .u2, .e6, .e7, .e8, .c2]
-/-- re-allocating (`b0`) or rebuilding (`wt`) the tables -/
-def rebuildingS : List Pc := [.b0, .wt]
-/-- inside a transform that only reads the tables -/
-def readingS : List Pc := [.rd]
 /-- every program point -/
 def allS : List Pc :=
   [.idle, .i0, .i1, .i2, .i3, .i4, .i5, .i6, .r1, .r2, .r3, .r4, .r5, .r6, .r7, .r8, .c0, .rd, .x1, .x2, .x3, .x4,
    .u1, .u2, .u3, .u4, .w1, .w2, .w3, .w4, .w5, .c1, .b0, .wt, .y1, .y2, .y3, .y4, .y5, .d1, .d2, .d3, .d4, .d5,
    .e1, .e2, .e3, .e4, .e5, .e6, .e7, .e8, .c2]
 
-def St.inInit (s : St) : Nat := s.num inInitS
-def St.writersIn (s : St) : Nat := s.num writersS
-def St.readersIn (s : St) : Nat := s.num readersS
-def St.rebuilding (s : St) : Nat := s.num rebuildingS
-def St.reading (s : St) : Nat := s.num readingS
-def St.threads (s : St) : Nat := s.num allS
+/-- `Σ_{p ∈ L} w p * f p`: with a 0/1 weight `w`, the number of threads at the points selected by `w` -/
+def sumW (f : Pc → Nat) (w : Pc → Nat) : List Pc → Nat
+  | [] => 0
+  | p :: ps => w p * f p + sumW f w ps
+
+/-- number of threads of state `s` at the program points selected by the 0/1 weight `w` -/
+abbrev St.num (s : St) (w : Pc → Nat) : Nat := sumW s.cnt w allS
+
+/-! Sets of program points (as 0/1 weights) the theorems speak about. -/
+/-- inside the unguarded initialiser (test `FFT_LEN >= 0` failed, `FFT_LEN = 0` not yet stored) -/
+def inInitW : Pc → Nat
+  | .i1 | .i2 | .i3 | .i4 | .i5 | .i6 => 1
+  | _ => 0
+/-- holding the writer role: from P(w) in `become_writer` until V(w) in `cease_writing` -/
+def writersW : Pc → Nat
+  | .c1 | .b0 | .wt | .y1 | .d1 => 1
+  | _ => 0
+/-- holding the reader role: counted in `readcount` while the reader group holds `w` -/
+def readersW : Pc → Nat
+  | .r6 | .r7 | .r8 | .c0 | .rd | .x1 | .x2 | .u1 | .u2 | .e6 | .e7 | .e8 | .c2 => 1
+  | _ => 0
+/-- re-allocating (`b0`) or rebuilding (`wt`) the tables -/
+def rebuildingW : Pc → Nat
+  | .b0 | .wt => 1
+  | _ => 0
+/-- inside a transform that only reads the tables -/
+def readingW : Pc → Nat
+  | .rd => 1
+  | _ => 0
+/-- anywhere -/
+def allW : Pc → Nat := fun _ => 1
+
+def St.inInit (s : St) : Nat := s.num inInitW
+def St.writersIn (s : St) : Nat := s.num writersW
+def St.readersIn (s : St) : Nat := s.num readersW
+def St.rebuilding (s : St) : Nat := s.num rebuildingW
+def St.reading (s : St) : Nat := s.num readingW
+def St.threads (s : St) : Nat := s.num allW
 
 /-- a step that respects the serial-initialisation hypothesis: a thread passes the test `FFT_LEN >= 0` negatively (enters
     the initialiser) only while no other thread is inside the initialiser -/
